@@ -8,6 +8,7 @@ import I3.Gen.Consts
 import I3.Gen.FFLimbs
 import I3.Gen.FFGLimbs
 import I3.Gen.FFAsm
+import I3.Model.FFInverse
 namespace I3.Model.Limbs
 open I3
 
@@ -156,10 +157,13 @@ def ffRaw (opFull : String) (args : List String) : Option String := do
                    else Gen.FF.mulByConstant x0 x1 x2 x3 c))
     | _ => none
   | "inverse", [x] =>
-    -- Montgomery inverse: (x·R)⁻¹·R² ; value-level
-    let xm := val4 (← parseLimbs? x)
-    let R := W ^ 4
-    pure (show4 (limbs4 (invMod xm q * (R % q) % q * (R % q) % q)))
+    -- the binary extended-GCD loop: hand-written loop skeleton over the pieces regenerated by T2
+    match (← parseLimbs? x) with
+    | [x0,x1,x2,x3] =>
+      match (if pat = "zx" then Model.FFInverse.inverse x0 x1 x2 x3 x0 x1 x2 x3 else Model.FFInverse.inverse 0 0 0 0 x0 x1 x2 x3) with
+      | some r => pure (show4 r)
+      | none => pure "FUEL-EXHAUSTED"
+    | _ => none
   | "backend", [] => pure "adx=?"
   | _, _ => none
 
